@@ -212,6 +212,24 @@ def s_lazy_inverse(world, table, cls, fn):
     return False, f'expected the general inverse of self.operator.as_matrix(), found {show(t)}'
 
 
+def s_lazy_transpose(world, table, cls, fn):
+    """Plain (unconjugated) transpose of the operand's dense form: mv of the lazy transpose is jax.linear_transpose, which
+    does not conjugate."""
+    t, _ = _single_return(fn)
+    S = _self(fn)
+    dense = ('call', ('attr', ('attr', S, 'operator'), 'as_matrix'), (), ())
+    if t in (('T', dense), ('attr', dense, 'T'), ('attr', dense, 'mT'), ('call', ('attr', dense, 'transpose'), (), ())):
+        return True, 'transpose of the operand matrix'
+    if t and t[0] == 'call' and (_is_jnp(t[1], 'transpose') or _is_jnp(t[1], 'matrix_transpose')) and t[2] == (dense,) and not t[3]:
+        return True, 'transpose of the operand matrix'
+    if t and t[0] == 'call' and _is_jnp(t[1], 'swapaxes') and len(t[2]) == 3 and t[2][0] == dense and {show(t[2][1]), show(t[2][2])} in ({'0', '1'}, {'-1', '-2'}, {'neg(1)', 'neg(2)'}):
+        return True, 'transpose of the operand matrix'
+    text = show(t)
+    if 'conj' in text or text.endswith('.H'):
+        return False, f'{text} is the conjugate transpose (adjoint) of the operand matrix, but mv of the lazy transpose is the plain transpose: they differ for complex coefficients'
+    return False, f'expected the transpose of self.operator.as_matrix(), found {text}'
+
+
 def _stack_schema(func_name, leaves_attr='block_leaves', star=False):
     def schema(world, table, cls, fn):
         t, _ = _single_return(fn)
@@ -292,6 +310,7 @@ SCHEMAS = {
     'IdentityOperator': s_identity,
     'HomothetyOperator': s_homothety,
     'AbstractLazyInverseOperator': s_lazy_inverse,
+    'TransposeOperator': s_lazy_transpose,
     'DiagonalOperator': s_diagonal,
     'BlockRowOperator': _stack_schema('hstack'),
     'BlockColumnOperator': _stack_schema('vstack'),
